@@ -182,6 +182,16 @@ func r3C06(c *Ctx) {
 				if callee.Pkg == fn.Pkg && constStringsIn(samePkgClosure(p, callee))[ctrlAnno] {
 					isMarker = true
 				}
+				// the patch body is built here and sent by a helper of the package
+				if callee.Pkg == fn.Pkg && own {
+					for _, a := range ci.Common().Args {
+						for x := range BackwardSlice(a) {
+							if k, ok := x.(*ssa.Const); ok && k.Value != nil && k.Value.Kind() == constant.String && constant.StringVal(k.Value) == ctrlAnno {
+								isMarker = true
+							}
+						}
+					}
+				}
 			}
 			if isMarker {
 				marker = ci
